@@ -79,10 +79,24 @@ def memAfter (m : Mem) : Act → Mem
   | .wr s k v => fun s' k' => if s' = s ∧ k' = k then some v else m s' k'
   | _ => m
 
-def obsAfter (m : Mem) (o : List Obs) : Act → List Obs
-  | .rd s k => .got s k (m s k) :: o
-  | .iter s => .snap s (m s) :: o
-  | _ => o
+/-- what an action reads from the shard maps `m`, if anything -/
+def obsOf (m : Mem) : Act → Option Obs
+  | .rd s k => some (.got s k (m s k))
+  | .iter s => some (.snap s (m s))
+  | _ => none
+
+def obsAfter (m : Mem) (o : List Obs) (a : Act) : List Obs :=
+  match obsOf m a with
+  | some x => x :: o
+  | none => o
+
+/-- taking a lock -/
+def isAcq : Act → Bool
+  | .lock _ => true | .rlock _ => true | _ => false
+
+/-- neither takes a lock nor writes (what a thread does after its lock point when it only reads) -/
+def quiet : Act → Bool
+  | .lock _ => false | .rlock _ => false | .wr _ _ _ => false | _ => true
 
 /-- `RWMutex`: `Lock` needs no holder, `RLock` needs no writer; everything else never blocks -/
 def Enabled (σ : Sys) : Act → Prop
